@@ -110,8 +110,11 @@ type World struct {
 	// when it is invoked, that list still holds what the caller put there.
 	AliasProbe bool
 	Later      []argmapper.Arg
-	BodyHook   func(fs *FuncSpec)   // optional: called at the start of every body (outside the lock)
-	OpTagOf    func() (gid, op int) // optional: goroutine/op attribution
+	// TargetDefaults: further default options given to NewFunc when Setup
+	// creates the target (e.g. Redefine filters supplied as defaults).
+	TargetDefaults []argmapper.Arg
+	BodyHook       func(fs *FuncSpec)   // optional: called at the start of every body (outside the lock)
+	OpTagOf        func() (gid, op int) // optional: goroutine/op attribution
 }
 
 type retainedArg struct {
@@ -493,6 +496,7 @@ func (w *World) Setup(sc *Scenario) (target *argmapper.Func, args []argmapper.Ar
 	if sc.TargetDefault {
 		defaults = append(defaults, argmapper.FuncName("target"))
 	}
+	defaults = append(defaults, w.TargetDefaults...)
 	target, err = w.Realize(&sc.Target, defaults...)
 	if err != nil {
 		return nil, nil, fmt.Errorf("target: %w", err)
